@@ -297,3 +297,40 @@ func FlatGo() bool {
 	}()
 	return flag
 }
+
+type flatWatcher struct {
+	done    chan struct{}
+	stopped chan struct{}
+	hit     bool
+}
+
+func startFlatWatcher(c chan int) *flatWatcher {
+	w := &flatWatcher{done: make(chan struct{}), stopped: make(chan struct{})}
+	go w.watch(c)
+	return w
+}
+
+func (w *flatWatcher) watch(c chan int) {
+	defer close(w.stopped)
+	select {
+	case <-w.done:
+	case <-c:
+		w.hit = true
+	}
+}
+
+func (w *flatWatcher) stop() bool {
+	close(w.done)
+	<-w.stopped
+	return w.hit
+}
+
+// FlatStruct keeps the state of its goroutine in a struct that only its own
+// methods look into.
+func FlatStruct(c chan int) (hit bool) {
+	w := startFlatWatcher(c)
+	defer func() {
+		hit = w.stop()
+	}()
+	return false
+}
